@@ -684,6 +684,36 @@ COMMAND_SEQS += [
     ("quantifier-symbol-leak", Y, "(assert (forall ((w Int)) zz))", ["(declare-fun w () Real)"], "declare-other-sort"),
 ]
 
+
+
+def _stale_literal_seqs():
+    """a numeral FIRST read inside a failing command (its reading depends on the logic in force: Int without a logic
+    or with an integer logic, Real under a real-only logic), then set-logic to the other kind of logic, then the same
+    numeral where the parser does not coerce constants: argument of an uninterpreted function, array index"""
+    out = []
+    shapes = [("undeclared", "(assert (and p (< %s zz)))"), ("let-body", "(assert (let ((t %s)) (> t zz)))"),
+              ("garbage", "(assert (< x %s) extra)"), ("get-value", "(get-value ((+ %s zz)))"),
+              ("define-fun", "(define-fun k9 () Real (+ %s zz))"), ("unterminated", "(assert (< x %s)"),
+              ("ill-typed", "(assert (and p %s))")]
+    for lit in ("7", "12"):
+        for nm, bad in shapes:
+            out.append(("stale-literal:%s:%s:to-real" % (nm, lit), "(declare-fun x () Real)(declare-fun p () Bool)",
+                        bad % lit,
+                        ["(assert (or p (< x 2)))", "(set-logic QF_UFLRA)", "(declare-fun f (Real) Real)",
+                         "(assert (< (f %s) (f x)))" % lit, "(declare-fun ar () (Array Real Real))",
+                         "(assert (= (select ar %s) x))" % lit, "(assert (< x %s))" % lit,
+                         "(define-fun k () Real (ite p %s x))" % lit, "(assert (= k x))"], "stale-literal"))
+            out.append(("stale-literal:%s:%s:to-int" % (nm, lit),
+                        "(set-logic QF_LRA)(declare-fun x () Real)(declare-fun p () Bool)(declare-fun yi () Int)",
+                        bad % lit,
+                        ["(set-logic QF_UFLIA)", "(declare-fun g (Int) Int)", "(assert (< (g %s) (g yi)))" % lit,
+                         "(declare-fun ai () (Array Int Int))", "(assert (= (select ai %s) yi))" % lit,
+                         "(assert (< yi %s))" % lit], "stale-literal"))
+    return out
+
+
+COMMAND_SEQS += _stale_literal_seqs()
+
 _FRESH_NAME = __import__("re").compile(r"__([A-Za-z_]+?)\d+")
 
 
@@ -878,6 +908,10 @@ def make_fake_solver_class():
 
 
 TRACK_FAILS = [(q, prim) for q in ("is_sat", "is_valid", "is_unsat") for prim in ("add", "solve", "push")]
+# the failure INSIDE the query itself (after its internal push): the temporary formula's add_assertion raises, solve
+# raises, or the internal push raises; with and without an earlier successful query (a pending pop) before it
+TRACK_FAILS += [(q, prim + mode) for q in ("is_sat", "is_valid", "is_unsat") for prim in ("add", "solve", "push")
+                for mode in ("@inside", "@inside-first")]
 
 
 def tracking_run(Fake, query, prim, with_fail):
@@ -893,8 +927,15 @@ def tracking_run(Fake, query, prim, with_fail):
     s.add_assertion(m.Or(a, b))
     s.push()
     s.add_assertion(m.Not(a))
-    getattr(s, query)(m.And(b, c))            # leaves a pending pop behind
-    if with_fail:
+    prim, _, mode = prim.partition("@")
+    if mode != "inside-first":
+        getattr(s, query)(m.And(b, c))            # leaves a pending pop behind
+    if with_fail and mode:
+        s.fail_next = prim
+        if outcome(lambda: getattr(s, query)(m.And(m.Or(b, c), d)))[0] != "exc":
+            return None
+        s.fail_next = None
+    elif with_fail:
         s.fail_next = prim
         call = {"add": lambda: s.add_assertion(m.Implies(c, d)), "solve": lambda: s.solve(),
                 "push": lambda: s.push()}[prim]
